@@ -216,6 +216,36 @@ def lemmas(chk):
     chk.extra["lemmas_run"] = rows
 
 
+def sequence_keys(chk, kinds):
+    """independent randomness across the kernels of a sequence: every sampler invocation of one iteration uses a key term provably distinct from all others"""
+    from .c09 import scenario as seq_scenario
+    from ..harness import Result, colliding_draw_keys, eval_keyterm
+    for kind in kinds:
+        res = chk.guarded(f"{kind}:trace", f"tracing KernelSequence[{kind}]", seq_scenario, chk, kind)
+        if not res:
+            continue
+        e_seq = res[0]
+        bad, n = colliding_draw_keys(e_seq.I)
+        chk.extra.setdefault("sequence_draw_keys", []).append(dict(sequence=kind, sampler_calls=n, collisions=len(bad)))
+
+        class _Ob:
+            name = f"KernelSequence[{kind}]: all {n} sampler invocations of one iteration use pairwise distinct key terms"
+            signature = f"sequence-keys:{kind}"
+        if not bad:
+            chk.results.append(Result(_Ob, "unsat", 0.0, {"tactic": "z3 datatype"}))
+        else:
+            (k1, s1, t1), (k2, s2, t2) = bad[0]
+            real = e_seq.key_roots
+            ka, kb = np.asarray(eval_keyterm(t1.term, real)), np.asarray(eval_keyterm(t2.term, real))
+            same = bool(np.array_equal(ka, kb))
+            chk.results.append(Result(_Ob, "sat", 0.0, {"tactic": "z3 datatype"}, replay=dict(reproduced=same)))
+            if same:
+                chk.violation(_Ob.signature, _Ob.name + f" -- a {k1}{list(s1)} draw and a {k2}{list(s2)} draw share the key {t1!r}",
+                              dict(reproduced=True, observed=dict(key=[int(v) for v in ka.reshape(-1)]), note="both key terms evaluate to the same real PRNG key: the later draw reuses the earlier kernel's randomness"))
+            else:
+                chk.harness_error(_Ob.signature, "key terms equal for the solver but the real keys differ")
+
+
 def main():
     chk = Check("C04")
     obs = []
@@ -231,37 +261,7 @@ def main():
         if res:
             obs += res[0]
             chk.validate(res[1])
-    # independent randomness across the kernels of a sequence (needed for the composition argument):
-    # every sampler invocation of one iteration uses a key term provably distinct from all others
-    from .c09 import scenario as seq_scenario
-    from ..harness import colliding_draw_keys
-    for kind in (["liesel:RW+Gibbs", "dict:RW+MH"] if chk.tier == "quick" else ["liesel:RW+Gibbs", "liesel:IWLS+RW", "liesel:Gibbs+RW+RW(ids not sorted)", "dict:RW+MH"]):
-        res = chk.guarded(f"{kind}:trace", f"tracing KernelSequence[{kind}]", seq_scenario, chk, kind)
-        if not res:
-            continue
-        e_seq = res[0]
-        bad, n = colliding_draw_keys(e_seq.I)
-        chk.extra.setdefault("sequence_draw_keys", []).append(dict(sequence=kind, sampler_calls=n, collisions=len(bad)))
-        from ..harness import Result
-
-        class _Ob:
-            name = f"KernelSequence[{kind}]: all {n} sampler invocations of one iteration use pairwise distinct key terms"
-            signature = f"sequence-keys:{kind}"
-        if not bad:
-            chk.results.append(Result(_Ob, "unsat", 0.0, {"tactic": "z3 datatype"}))
-        else:
-            (k1, s1, t1), (k2, s2, t2) = bad[0]
-            # replay: two draws from the same real key are identical / deterministic functions of each other
-            real = e_seq.key_roots
-            from ..harness import eval_keyterm
-            ka, kb = np.asarray(eval_keyterm(t1.term, real)), np.asarray(eval_keyterm(t2.term, real))
-            same = bool(np.array_equal(ka, kb))
-            chk.results.append(Result(_Ob, "sat", 0.0, {"tactic": "z3 datatype"}, replay=dict(reproduced=same)))
-            if same:
-                chk.violation(_Ob.signature, _Ob.name + f" -- a {k1}{list(s1)} draw and a {k2}{list(s2)} draw share the key {t1!r}",
-                              dict(reproduced=True, observed=dict(key=[int(v) for v in ka.reshape(-1)]), note="both key terms evaluate to the same real PRNG key: the later draw reuses the earlier kernel's randomness"))
-            else:
-                chk.harness_error(_Ob.signature, "key terms equal for the solver but the real keys differ")
+    sequence_keys(chk, ["liesel:RW+Gibbs", "dict:RW+MH", "liesel:Gibbs+RW+RW(ids not sorted)"] if chk.tier == "quick" else ["liesel:RW+Gibbs", "liesel:IWLS+RW", "liesel:Gibbs+RW+RW(ids not sorted)", "dict:RW+MH"])
     chk.run(obs)
     lemmas(chk)
     chk.functions += ["liesel.goose.nuts.NUTSKernel._standard_transition/_blackjax_state/_blackjax_kernel", "liesel.goose.hmc.HMCKernel._standard_transition", "liesel.goose.kernel.ModelMixin.log_prob_fn/position",
